@@ -4,6 +4,10 @@ import (
 	"fmt"
 	"strings"
 	"testing"
+
+	"github.com/gogpu/naga/glsl"
+
+	"verif/internal/xrt"
 )
 
 // All nine matCxR shapes: M*v, v*M, M*s, s*M, M+M, M-M and every defined M*M product. Inputs are
@@ -264,6 +268,45 @@ func TestConformScalarVectorMixes(t *testing.T) {
 				}
 				runConf(t, c)
 			})
+		}
+	}
+}
+
+// naga's BindingMap option makes the backend print layout(binding = N); BindingSlots maps N back.
+func TestConformBindingMap(t *testing.T) {
+	m, err := lowerWGSL(hdrI + `@group(1) @binding(3) var<uniform> k: vec4<i32>;
+@compute @workgroup_size(1) fn main() { o[0] = a[0] + k.y; }`)
+	if err != nil {
+		t.Fatal(err)
+	}
+	for _, v := range testVersions {
+		opt := glsl.DefaultOptions()
+		opt.LangVersion = v
+		opt.EntryPoint = "main"
+		opt.BindingMap = map[glsl.BindingMapKey]uint8{{Group: 0, Binding: 0}: 5, {Group: 0, Binding: 1}: 6, {Group: 1, Binding: 3}: 7}
+		src, _, err := glsl.Compile(m, opt)
+		if err != nil {
+			t.Fatal(err)
+		}
+		p, err := Parse(src)
+		if err != nil {
+			t.Fatalf("%v\n%s", err, src)
+		}
+		got := map[int]string{}
+		for _, b := range p.Blocks() {
+			got[b.Binding] = b.Storage
+		}
+		if got[5] != "buffer" || got[6] != "buffer" || got[7] != "uniform" {
+			t.Fatalf("%s: bindings %v\n%s", v, got, src)
+		}
+		// deliberately route the GL slots to other WGSL bindings than the names suggest
+		bufs := map[xrt.Binding][]byte{bd(7, 0): i32s(40), bd(7, 1): zeros(4), bd(7, 2): i32s(0, 2, 0, 0)}
+		o := Opts{BindingSlots: map[int]xrt.Binding{5: bd(7, 0), 6: bd(7, 1), 7: bd(7, 2)}}
+		if err := p.Exec(bufs, o); err != nil {
+			t.Fatal(err)
+		}
+		if w := words(bufs[bd(7, 1)]); w[0] != 42 {
+			t.Fatalf("%s: got %v", v, w)
 		}
 	}
 }
